@@ -75,6 +75,12 @@ type UnitSpec struct {
 	AssertTimeoutS int                   `json:"assert_timeout_s"`
 	CompileOnly    bool                  `json:"compile_only"` // gen unit: the claim is "every generated package type-checks and builds"
 	Stubs          map[string]string     `json:"stubs"`        // function key -> harness function replacing it under the engine (environment stubs)
+	// Links: body-less harness function (declared with //go:linkname to an unexported function of ANOTHER package
+	// of /repo, which an import cycle keeps the harness from calling directly) -> "import/path.func". Under the
+	// engine the call is redirected to the target's SSA body; natively the linker resolves it. ExtraPkgs are loaded
+	// (engine) and linked (native, through an external test file) next to the unit's package.
+	Links     map[string]string `json:"links"`
+	ExtraPkgs []string          `json:"extra_pkgs"`
 	genBounds      map[string]any
 }
 
@@ -339,6 +345,31 @@ func overlayFor(hdir, scratch string, u UnitSpec, pkgName string, withTest bool)
 		ov[dst] = b
 		paths[dst] = src
 	}
+	if len(u.Links) > 0 {
+		// body-less declarations need an assembly file in the package
+		asm := filepath.Join(scratch, "zz_verif_empty_"+u.Name+".s")
+		if err := os.WriteFile(asm, []byte("// body-less go:linkname declarations of the harness\n"), 0o644); err != nil {
+			return nil, nil, err
+		}
+		dst := filepath.Join(repoDir, u.Dir, "zz_verif_empty.s")
+		ov[dst] = []byte("// body-less go:linkname declarations of the harness\n")
+		paths[dst] = asm
+	}
+	if withTest && len(u.ExtraPkgs) > 0 {
+		var sb strings.Builder
+		fmt.Fprintf(&sb, "package %s_test\n\nimport (\n", pkgName)
+		for _, e := range u.ExtraPkgs {
+			fmt.Fprintf(&sb, "\t_ %q\n", e)
+		}
+		sb.WriteString(")\n")
+		tp := filepath.Join(scratch, "zz_link_"+u.Name+"_test.go")
+		if err := os.WriteFile(tp, []byte(sb.String()), 0o644); err != nil {
+			return nil, nil, err
+		}
+		dst := filepath.Join(repoDir, u.Dir, "zz_verif_link_test.go")
+		ov[dst] = []byte(sb.String())
+		paths[dst] = tp
+	}
 	if withTest {
 		test := fmt.Sprintf("package %s\n\nimport (\n\t\"testing\"\n\tzz %q\n)\n\nfunc TestZZReplay(t *testing.T) { zz.RunNative(ZZEntries) }\n", pkgName, zzImport)
 		tp := filepath.Join(scratch, "zz_replay_"+u.Name+"_test.go")
@@ -389,7 +420,7 @@ func runUnit(id, hdir, scratch string, u UnitSpec, o runOpts, listed map[string]
 			ovPaths[k] = v
 		}
 		cfg := &packages.Config{Mode: packages.LoadAllSyntax, Dir: repoDir, Overlay: ov, Env: goEnv()}
-		pkgs, err = packages.Load(cfg, u.Pkg)
+		pkgs, err = packages.Load(cfg, append([]string{u.Pkg}, u.ExtraPkgs...)...)
 		if err != nil {
 			res.err = err
 			return res
@@ -421,6 +452,11 @@ func runUnit(id, hdir, scratch string, u UnitSpec, o runOpts, listed map[string]
 	prog, spkgs := ssautil.AllPackages(pkgs, ssa.InstantiateGenerics)
 	prog.Build()
 	main := spkgs[0]
+	for i, p := range pkgs {
+		if p.PkgPath == u.Pkg {
+			main = spkgs[i]
+		}
+	}
 	res.load = time.Since(tl)
 
 	// native test binary, built in the background
@@ -524,8 +560,31 @@ func runUnit(id, hdir, scratch string, u UnitSpec, o runOpts, listed map[string]
 			if u.AssertTimeoutS > 0 {
 				cfg.assertTimeoutS = u.AssertTimeoutS
 			}
-			if len(u.Stubs) > 0 {
+			if len(u.Links) > 0 {
 				cfg.stubs = map[string]*ssa.Function{}
+				for local, target := range u.Links {
+					lf := main.Func(local)
+					dot := strings.LastIndex(target, ".")
+					var tf *ssa.Function
+					if dot > 0 {
+						for _, p := range prog.AllPackages() {
+							if p.Pkg.Path() == target[:dot] {
+								tf = p.Func(target[dot+1:])
+							}
+						}
+					}
+					if lf == nil || tf == nil {
+						fmt.Fprintf(os.Stderr, "link %s -> %s: not found\n", local, target)
+						cfg.stubMissing = append(cfg.stubMissing, local+" -> "+target)
+						continue
+					}
+					cfg.stubs[fnKey(lf)] = tf
+				}
+			}
+			if len(u.Stubs) > 0 {
+				if cfg.stubs == nil {
+					cfg.stubs = map[string]*ssa.Function{}
+				}
 				for k, v := range u.Stubs {
 					if f := main.Func(v); f != nil {
 						cfg.stubs[k] = f
